@@ -606,6 +606,56 @@ pub fn run(tier: &str, mode: Mode) -> i32 {
         rep.sub("straddling-bytes", "an ASCII prefix of 0..=9 characters followed by 1..33 copies of a 2-, 3- or 4-byte character (alone, wrapped in cards, as a list item): a multi-byte character straddles every byte offset up to 40 and every power of two up to 128, through all six parsers", strings.len() as u64, strings.len() as u64, false, json!({}));
     }
 
+    // (c5) code points that text-handling code likes to treat specially (byte order mark, the Unicode spaces,
+    // zero-width and direction marks, line separators, ASCII controls, full-width forms, characters whose case
+    // mapping changes their length or lands on an ASCII letter - U+212A KELVIN SIGN lowercases to 'k', U+017F
+    // LONG S uppercases to 'S'), put before, after, around and at every character boundary of texts that are
+    // valid or one step from valid, and substituted for each of their characters
+    {
+        let cps: Vec<String> = [
+            0xFEFFu32, 0xA0, 0x2003, 0x3000, 0x200B, 0x200D, 0x200E, 0x202E, 0x2028, 0x2029, 0x85, 0x0, 0x7F, 0x9, 0xA, 0xD, 0xB, 0xC, 0x1F, 0xFF21, 0xFF33, 0xFF10, 0xFF11, 0xFF0C, 0xFF1A, 0xFF0B, 0xFF0D, 0x2212,
+            0x2010, 0x2013, 0x301, 0x130, 0xDF, 0x212A, 0x17F, 0x1E9E, 0xFB06, 0xD7FF, 0xE000, 0xFFFD, 0xFFFE, 0x10FFFF,
+        ]
+        .iter()
+        .filter_map(|c| char::from_u32(*c))
+        .map(|c| c.to_string())
+        .collect();
+        let bases = ["", "AA", "AA,KK", "AKs", "A9s+:0.5", "TT-88", "AsKs", "As", "A", "s", "AAs", "AsAs", "AA:1.5", "22-AA", "KK:0", "KsAs:1"];
+        let mut set = std::collections::BTreeSet::new();
+        for cp in &cps {
+            for b in bases {
+                set.insert(format!("{}{}", cp, b));
+                set.insert(format!("{}{}", b, cp));
+                set.insert(format!("{}{}{}", cp, b, cp));
+                set.insert(format!("{}{}{}", cp, cp, b));
+                let chars: Vec<char> = b.chars().collect();
+                for i in 0..chars.len() {
+                    let pre: String = chars[..i].iter().collect();
+                    let post: String = chars[i..].iter().collect();
+                    let post1: String = chars[i + 1..].iter().collect();
+                    set.insert(format!("{}{}{}", pre, cp, post));
+                    set.insert(format!("{}{}{}", pre, cp, post1));
+                }
+            }
+        }
+        let strings: Vec<String> = set.into_iter().collect();
+        let outs = par_map(strings.len(), |i| {
+            let mut st = Stats::default();
+            let r = if mode == Mode::Total { small_parsers(&strings[i], &mut st) } else { None };
+            (r.or_else(|| big_parsers(&strings[i], mode, false, &mut st)), st.parsed_tokens + st.nonempty_ranges + st.parsed_small)
+        });
+        let mut accepted = 0u64;
+        for (i, (o, acc)) in outs.into_iter().enumerate() {
+            if acc > 0 {
+                accepted += 1;
+            }
+            if let Some((stage, what)) = o {
+                push_viol(&mut rep, "special-code-points", &strings[i], &stage, &what, mode);
+            }
+        }
+        rep.sub("special-code-points", "42 code points that text handling treats specially (BOM, Unicode spaces, zero-width and direction marks, line separators, ASCII controls, full-width forms, characters whose case mapping changes length or lands on an ASCII letter, the ends of the scalar ranges) before, after, around, doubled before, inserted at every character boundary of and substituted for every character of 16 texts that are valid or one step from valid; distinct_nontrivial = strings some parser accepted", strings.len() as u64, accepted, false, json!({"code_points": cps.len(), "bases": bases.len()}));
+    }
+
     if mode == Mode::Total {
         // (d) over-long inputs
         let mut long: Vec<String> = vec![];
